@@ -1361,6 +1361,13 @@ func sioCorpus() []*sioCase {
 			msg(`{"to":["captain","a"],"delete":["a"],"tag":"gone-before"}`), create("a", "L0", "fwd"),
 			msg(`{"to":["a","captain"],"delete":["a"],"tag":"seen-then-gone","then":[{"tag":"k","to":"a"}]}`)}},
 	}
+	// a burst: one walk emits 1300 messages for another machine, which all are delivered and reported
+	burst := make([]interface{}, 1300)
+	for i := range burst {
+		burst[i] = map[string]interface{}{"to": "b", "tag": fmt.Sprintf("k%d", i)}
+	}
+	cs = append(cs, &sioCase{Kind: "a burst of 1300 emissions in one ProcessMsg", Ops: []*sioOp{create("a", "L0", "fwd"), create("b", "L1", "fwd"),
+		{Kind: "msg", Msg: map[string]interface{}{"to": "a", "tag": "burst", "then": burst}}, msg(`{"to":"b","tag":"after"}`)}})
 	for _, c := range cs {
 		c.Det = sioHistoryDet(c)
 	}
